@@ -127,7 +127,8 @@ func c10Font(c *explore.Ctx) (*sfnt.Font, string) {
 		f.InstallCMap(cmap.Format4{'A': 1, 'a': 1, 'B': 2, 'f': 3, 'i': 4, 0xFB01: 5})
 		desc += ", cmap format 4"
 	case 2:
-		f.InstallCMap(cmap.Format12{'A': 1, 'B': 2, 'f': 3, 0x1F600: 4, 0x1F601: 4})
+		// consecutive codes on consecutive glyphs (one segment), and two astral codes on one glyph
+		f.InstallCMap(cmap.Format12{'A': 1, 'B': 2, 'C': 3, 'D': 4, 0x1F600: 5, 0x1F601: 5})
 		desc += ", cmap format 12"
 	}
 	f.Gsub, f.Gpos, f.Gdef = nil, nil, nil
@@ -404,7 +405,18 @@ func c10Subset(r *run.Run) {
 				if sb == nil {
 					c.Fail("C10.cmap", sig+" cmap lost", "the subset has no usable cmap subtable; %s list %v", desc, origCopy)
 				} else {
-					for _, ru := range []rune{'A', 'a', 'B', 'f', 'i', 'x', 0xFB01, 0x1F600, 0x1F601, 0x1F602} {
+					// every code of the windows around the mapped characters ("no other character is mapped")
+					var probe []rune
+					for ru := rune(0x20); ru < 0x180; ru++ {
+						probe = append(probe, ru)
+					}
+					for ru := rune(0xFAF0); ru < 0xFB10; ru++ {
+						probe = append(probe, ru)
+					}
+					for ru := rune(0x1F5F0); ru < 0x1F610; ru++ {
+						probe = append(probe, ru)
+					}
+					for _, ru := range probe {
 						og := ob.Lookup(ru)
 						got := sb.Lookup(ru)
 						ng2, retained := newOf[og]
